@@ -239,7 +239,7 @@ def mk(nodes, share, repl=False):
     if repl:
         # a definition of the same batch that is REPLACED (with_replacement) and sorts before the others; D0 mentions it
         defs["Aardvark"] = {"type": "string"}
-        defs["Mango"] = {"type": "object", "properties": {"label": {"$ref": "#/definitions/Aardvark"}}}
+        defs["Bravo"] = {"type": "object", "properties": {"label": {"$ref": "#/definitions/Aardvark"}}}   # D0.. sort LAST in the batch
     if share:
         defs["S"] = {"type": "object", "properties": {"p": ref(0), "q": {"type": "array", "items": [ref(0), INT], "minItems": 2, "maxItems": 2},
                                                         "r": {"oneOf": [ref(0), {"type": "null"}]}}, "required": ["q"]}
